@@ -900,7 +900,9 @@ def main(tier):
                    "parsing and go-toml are modelled only as 'flag given / key present'; the file system as a chain of directories",
                    "hand-written generic model Cli/ConfigKeys.v of the keys without a flag (presence test, validation range, whether the value reaches "
                    "the request; per-key classification in harness/c17keys.py read off pyproject_loader.go / *_config_loader.go / clone_usecase.go), "
-                   "bound to the code by one run of the real binary per key and value",
+                   "bound to the code by one run of the real binary per key and value; for [clones] skip_docstrings / max_edit_distance, [output] format, "
+                   "the [dead_code] detect_* switches and the built-in file patterns the wiring is read off the Go AST by translator/gen_config.go "
+                   "(Cli/ConfigKeysWiring.v)",
                    "init_yields_defaults is a differential test only (the TOML text `pyscn init` writes is parsed by the real loader, not by a model)",
                    "JSON report reader and stderr parser of harness/c17.py"]
     ck.finish(assumptions=["severities are critical / warning / info", "the clone threshold is within 0..1", "no pyscn configuration file above the work directory",
